@@ -19,7 +19,7 @@ try:
         res['demo_patched'] = r.returncode
         res['demo_out'] = (r.stdout + r.stderr)[-400:]
         if '--notests' not in sys.argv:
-            t = subprocess.run(['/venv/bin/python', '-m', 'pytest', '-q', '-p', 'no:cacheprovider', '-x'], cwd=tmp, env=env, capture_output=True, text=True, timeout=1800)
+            t = subprocess.run(['unshare', '-n', 'sh', '-c', 'ip link set lo up; exec /venv/bin/python -m pytest -q -p no:cacheprovider -x'], cwd=tmp, env=env, capture_output=True, text=True, timeout=1800)
             res['tests'] = t.stdout.strip().splitlines()[-1] if t.stdout.strip() else t.stderr[-200:]
     else:
         res['apply_err'] = a.stderr[-300:]
